@@ -76,16 +76,18 @@ type Req struct {
 
 // Resp reports what a case exercised (for the class distribution of the evidence).
 type Resp struct {
-	Setters  int    `json:"setters"` // fields populated through generated setters
-	Getters  int    `json:"getters"` // generated getters compared with the model
-	Clears   int    `json:"clears"`  // generated ClearX methods exercised
-	Built    int    `json:"built"`   // fields set through the generated builder
-	JSON     bool   `json:"json"`    // JSON leg compared outputs (false: both sides refused the content)
-	Text     bool   `json:"text"`
-	Lazy     bool   `json:"lazy"`               // the generated type has a lazy field somewhere below
-	GoType   string `json:"gotype"`             // Go type of the generated message
-	Files    int    `json:"files,omitempty"`    // init: files verified
-	Messages int    `json:"messages,omitempty"` // init: message types verified
+	Setters   int    `json:"setters"`   // fields populated through generated setters
+	Getters   int    `json:"getters"`   // generated getters compared with the model
+	Clears    int    `json:"clears"`    // generated ClearX methods exercised
+	Built     int    `json:"built"`     // fields set through the generated builder
+	RepStrExt bool   `json:"repstrext"` // codec verdicts differed on a repeated string extension with invalid UTF-8 (registered finding); the case was cut short
+	NegZero   bool   `json:"negzero"`   // a getter showed the registered -0 default defect (KF-gengo-default-negzero)
+	JSON      bool   `json:"json"`      // JSON leg compared outputs (false: both sides refused the content)
+	Text      bool   `json:"text"`
+	Lazy      bool   `json:"lazy"`               // the generated type has a lazy field somewhere below
+	GoType    string `json:"gotype"`             // Go type of the generated message
+	Files     int    `json:"files,omitempty"`    // init: files verified
+	Messages  int    `json:"messages,omitempty"` // init: message types verified
 }
 
 type state struct {
@@ -418,10 +420,10 @@ func (st *state) Case(q Req) (*Resp, error) {
 		if !proto.Equal(gs.Interface(), g.Interface()) {
 			return nil, fmt.Errorf("proto.Equal(built through setters, built through protoreflect) = false")
 		}
-		if res.Getters, err = goapi.CheckGetters(g.Interface(), v); err != nil {
+		if res.Getters, err = checkGetters(g.Interface(), v, &res.NegZero); err != nil {
 			return nil, fmt.Errorf("generated getters (message built through protoreflect): %v", err)
 		}
-		if _, err = goapi.CheckGetters(gs.Interface(), v); err != nil {
+		if _, err = checkGetters(gs.Interface(), v, &res.NegZero); err != nil {
 			return nil, fmt.Errorf("generated getters (message built through setters): %v", err)
 		}
 		if res.Clears, err = clearLeg(newG, v); err != nil {
@@ -439,7 +441,7 @@ func (st *state) Case(q Req) (*Resp, error) {
 			if !proto.Equal(gb.Interface(), g.Interface()) {
 				return nil, fmt.Errorf("proto.Equal(built through the builder, built through protoreflect) = false")
 			}
-			if _, err = goapi.CheckGetters(gb.Interface(), v); err != nil {
+			if _, err = checkGetters(gb.Interface(), v, &res.NegZero); err != nil {
 				return nil, fmt.Errorf("generated getters (message built through the builder): %v", err)
 			}
 		}
@@ -449,6 +451,13 @@ func (st *state) Case(q Req) (*Resp, error) {
 	mo := proto.MarshalOptions{Deterministic: true, AllowPartial: true}
 	bg, errG := mo.Marshal(g.Interface())
 	bd, errD := mo.Marshal(d.Interface())
+	if q.Bad8 && repStringExtInvalid(g) {
+		// the table-driven codec does not validate repeated string extensions: every codec verdict below may differ
+		if (errG == nil) != (errD == nil) {
+			res.RepStrExt = true
+		}
+		return res, nil
+	}
 	if (errG == nil) != (errD == nil) {
 		return nil, fmt.Errorf("Marshal verdicts differ: generated %v, dynamicpb %v", errG, errD)
 	}
@@ -505,7 +514,7 @@ func (st *state) Case(q Req) (*Resp, error) {
 				return nil, fmt.Errorf("generated, after Unmarshal(%s): %v", in.what, err)
 			}
 			if st.batch.Names {
-				if _, err := goapi.CheckGetters(g2.Interface(), v); err != nil {
+				if _, err := checkGetters(g2.Interface(), v, &res.NegZero); err != nil {
 					return nil, fmt.Errorf("generated getters after Unmarshal(%s): %v", in.what, err)
 				}
 			}
@@ -606,14 +615,16 @@ func (st *state) Case(q Req) (*Resp, error) {
 			}
 		}
 		if st.batch.Names {
-			if _, err := goapi.CheckGetters(g4.Interface(), cur); err != nil {
+			if _, err := checkGetters(g4.Interface(), cur, &res.NegZero); err != nil {
 				return nil, fmt.Errorf("generated getters after the history: %v", err)
 			}
 		}
 		b4g, eg := mo.Marshal(g4.Interface())
 		b4d, ed := mo.Marshal(d4.Interface())
 		if (eg == nil) != (ed == nil) || !bytes.Equal(b4g, b4d) {
-			if !(q.Bad8 && eg != nil && ed != nil) {
+			if q.Bad8 && repStringExtInvalid(g4) {
+				res.RepStrExt = true
+			} else if !(q.Bad8 && eg != nil && ed != nil) {
 				return nil, fmt.Errorf("after the history: deterministic Marshal differs:\n generated %x (%v)\n dynamicpb %x (%v)", b4g, eg, b4d, ed)
 			}
 		}
